@@ -126,7 +126,7 @@ def run(tier, seed):
             if caches:
                 cache_classes.append(cls)
             # 2-safety for classes with caches
-            if caches and cls != 'fans_sa_steady_wall_bounded':
+            if caches:
                 for f in funcs:
                     if not f.name.startswith('eval_') or f.ret != 'Sc' or (only and not re.search(only, f.cname)):
                         continue
@@ -151,7 +151,7 @@ def run(tier, seed):
         rep.undecide('extraction break: %s' % e)
         write_evidence('C10', tier, seed, 'proof', {'evaluations': 0, 'distinct_nontrivial': 0, 'explanation': 'extraction break: %s' % e}, TRUSTED, time.time() - t0, 0)
         return rep.finish()
-    tmo = 150 if tier == 'quick' else 600
+    tmo = 300 if tier == 'quick' else 900      # the wall-bounded FANS-SA bodies take ~80 s each alone, ~120 s under load
 
     def work(j):
         kind, cls, f, hf, cd, repl, hasvec = j
